@@ -109,8 +109,14 @@ func (api *API) mapDecodeBasedOnType(ctx context.Context, mapVal any, value refl
 					fieldKey = *innerTS.fieldKey
 				}
 
-				//nolint:forcetypeassert
-				fieldValStr := mapVal.(map[string]any)[fieldKey].(string)
+				fieldMap, err := mapValueAs[map[string]any](mapVal)
+				if err != nil {
+					return err
+				}
+				fieldValStr, err := mapValueAs[string](fieldMap[fieldKey])
+				if err != nil {
+					return err
+				}
 				byteSlice, err := DecodeHex(fieldValStr)
 				if err != nil {
 					return ierrors.Wrap(err, "failed to read byte slice from map")
@@ -145,7 +151,11 @@ func (api *API) mapDecodeBasedOnType(ctx context.Context, mapVal any, value refl
 		sliceValue := sliceFromArray(value)
 		sliceValueType := sliceValue.Type()
 		if sliceValueType.AssignableTo(bytesType) {
-			byteSlice, err := DecodeHex(mapVal.(string))
+			hexStr, err := mapValueAs[string](mapVal)
+			if err != nil {
+				return err
+			}
+			byteSlice, err := DecodeHex(hexStr)
 			if err != nil {
 				return ierrors.Wrap(err, "failed to read byte slice from map")
 			}
@@ -179,22 +189,42 @@ func (api *API) mapDecodeBasedOnType(ctx context.Context, mapVal any, value refl
 
 		return nil
 	case reflect.Bool:
+		boolVal, err := mapValueAs[bool](mapVal)
+		if err != nil {
+			return err
+		}
 		addrValue := value.Addr().Convert(reflect.TypeOf((*bool)(nil)))
-		addrValue.Elem().Set(reflect.ValueOf(mapVal))
+		addrValue.Elem().Set(reflect.ValueOf(boolVal))
 
 		return nil
 	case reflect.Int8, reflect.Int16, reflect.Int32:
-		//nolint:forcetypeassert // false positive, we already checked the type via reflect
-		return api.mapDecodeNum(value, valueType, float64NumParser(mapVal.(float64), value.Kind(), true))
+		floatVal, err := mapValueAs[float64](mapVal)
+		if err != nil {
+			return err
+		}
+
+		return api.mapDecodeNum(value, valueType, float64NumParser(floatVal, value.Kind(), true))
 	case reflect.Int64:
-		//nolint:forcetypeassert // false positive, we already checked the type via reflect
-		return api.mapDecodeNum(value, valueType, strNumParser(mapVal.(string), 64, true))
+		strVal, err := mapValueAs[string](mapVal)
+		if err != nil {
+			return err
+		}
+
+		return api.mapDecodeNum(value, valueType, strNumParser(strVal, 64, true))
 	case reflect.Uint8, reflect.Uint16, reflect.Uint32:
-		//nolint:forcetypeassert // false positive, we already checked the type via reflect
-		return api.mapDecodeNum(value, valueType, float64NumParser(mapVal.(float64), value.Kind(), false))
+		floatVal, err := mapValueAs[float64](mapVal)
+		if err != nil {
+			return err
+		}
+
+		return api.mapDecodeNum(value, valueType, float64NumParser(floatVal, value.Kind(), false))
 	case reflect.Uint64:
-		//nolint:forcetypeassert // false positive, we already checked the type via reflect
-		return api.mapDecodeNum(value, valueType, strNumParser(mapVal.(string), 64, false))
+		strVal, err := mapValueAs[string](mapVal)
+		if err != nil {
+			return err
+		}
+
+		return api.mapDecodeNum(value, valueType, strNumParser(strVal, 64, false))
 	case reflect.Float32, reflect.Float64:
 		return api.mapDecodeFloat(value, valueType, mapVal)
 	default:
@@ -263,7 +293,11 @@ func (api *API) mapDecodeFloat(value reflect.Value, valueType reflect.Type, mapV
 	bitSize, _, addrTypeToConvert := getNumberTypeToConvert(valueType.Kind())
 	addrValue = addrValue.Convert(addrTypeToConvert)
 
-	f, err := strconv.ParseFloat(mapVal.(string), bitSize)
+	strVal, err := mapValueAs[string](mapVal)
+	if err != nil {
+		return err
+	}
+	f, err := strconv.ParseFloat(strVal, bitSize)
 	if err != nil {
 		return err
 	}
@@ -289,8 +323,11 @@ func (api *API) mapDecodeInterface(
 	if !has {
 		return ierrors.Errorf("no object type defined in map for interface %s", valueType)
 	}
-	//nolint:forcetypeassert // false positive
-	objectCode := uint32(objectCodeAny.(float64))
+	objectCodeFloat, err := mapValueAs[float64](objectCodeAny)
+	if err != nil {
+		return err
+	}
+	objectCode := uint32(objectCodeFloat)
 
 	objectType, exists := iObjects.GetObjectTypeByCode(objectCode)
 	if !exists || objectType == nil {
@@ -309,8 +346,10 @@ func (api *API) mapDecodeInterface(
 func (api *API) mapDecodeStruct(ctx context.Context, mapVal any, value reflect.Value,
 	valueType reflect.Type, ts TypeSettings, opts *options) error {
 	if valueType == timeType {
-		//nolint:forcetypeassert // false positive, we already checked the type via reflect
-		strVal := mapVal.(string)
+		strVal, err := mapValueAs[string](mapVal)
+		if err != nil {
+			return err
+		}
 		nanoTime, err := strconv.ParseUint(strVal, 10, 64)
 		if err != nil {
 			return ierrors.Wrapf(err, "unable to parse time %s map value", strVal)
@@ -420,8 +459,10 @@ func (api *API) mapDecodeStructFields(
 func (api *API) mapDecodeSlice(ctx context.Context, mapVal any, value reflect.Value,
 	valueType reflect.Type, ts TypeSettings, opts *options) error {
 	if valueType.AssignableTo(bytesType) {
-		//nolint:forcetypeassert // false positive, we already checked the type via reflect
-		fieldValStr := mapVal.(string)
+		fieldValStr, err := mapValueAs[string](mapVal)
+		if err != nil {
+			return err
+		}
 		byteSlice, err := DecodeHex(fieldValStr)
 		if err != nil {
 			return ierrors.Wrap(err, "failed to read byte slice from map")
@@ -439,7 +480,11 @@ func (api *API) mapDecodeSlice(ctx context.Context, mapVal any, value reflect.Va
 		return nil
 	}
 
-	refVal := reflect.ValueOf(mapVal)
+	sliceVal, err := mapValueAs[[]any](mapVal)
+	if err != nil {
+		return err
+	}
+	refVal := reflect.ValueOf(sliceVal)
 	for i := range refVal.Len() {
 		elemValue := reflect.New(valueType.Elem()).Elem()
 		if err := api.mapDecode(ctx, refVal.Index(i).Interface(), elemValue, TypeSettings{}, opts); err != nil {
@@ -515,4 +560,17 @@ func (api *API) mapDecodeMap(ctx context.Context, mapVal any, value reflect.Valu
 	}
 
 	return nil
+}
+
+// mapValueAs returns a value taken from the (JSON shaped) input as type T, or an error if the input has another
+// shape at this position: the input is not trusted to match the target type.
+func mapValueAs[T any](mapVal any) (T, error) {
+	typedVal, ok := mapVal.(T)
+	if !ok {
+		var zero T
+
+		return zero, ierrors.Errorf("unexpected value in map decode: expected %T, got %T instead", zero, mapVal)
+	}
+
+	return typedVal, nil
 }
